@@ -74,6 +74,42 @@ def part_numbers(ctx):
             ctx.sample({'a': repr(a), 'b': repr(b), 'max': mx, 'impl': d, 'model': model[i] if model else None})
 
 
+def part_nonfinite(ctx):
+    """inf and nan operands (outside the rational model): the pairing distance still is a number in [0, max], the
+    deep distance a number in [0, 1]"""
+    import math
+    from deepdiff import DeepDiff
+    from deepdiff.distance import _get_numbers_distance, get_numeric_types_distance
+    inf, nan = float('inf'), float('nan')
+    vals = [inf, -inf, nan, 0, 1.0, -2.5, 10**6]
+    for a in vals:
+        for b in vals:
+            if not (isinstance(a, float) and not math.isfinite(a)) and not (isinstance(b, float) and not math.isfinite(b)):
+                continue
+            for mx in (0.3, 1):
+                ctx.evaluations += 1
+                case = {'kind': 'nonfinite', 'a': repr(a), 'b': repr(b), 'max': mx}
+                try:
+                    d1 = _get_numbers_distance(a, b, mx); d2 = get_numeric_types_distance(a, b, mx)
+                except Exception as e:
+                    ctx.violate(case, 'raised %r' % e); continue
+                for d in (d1, d2):
+                    if not (isinstance(d, (int, float)) and d == d and 0 <= d <= mx):
+                        ctx.violate(case, 'distance %r is not a number in [0, %r]' % (d, mx)); break
+                ctx.count('nonfinite')
+            if a is b:
+                continue
+            for kw in ({}, {'ignore_order': True}):
+                ctx.evaluations += 1
+                case = {'kind': 'nonfinite-deep', 'a': repr(a), 'b': repr(b), 'cfg': kw}
+                try:
+                    dd = DeepDiff([a, 2], [b, 2], get_deep_distance=True, **kw).get('deep_distance', 0)
+                except Exception as e:
+                    ctx.violate(case, 'raised %r' % e); continue
+                if not (isinstance(dd, (int, float)) and dd == dd and 0 <= dd <= 1):
+                    ctx.violate(case, 'deep_distance %r is not a number in [0, 1]' % (dd,))
+
+
 def part_typed(ctx):
     from deepdiff.distance import get_numeric_types_distance
     D, T, TD, DT = datetime.date, datetime.time, datetime.timedelta, datetime.datetime
@@ -181,6 +217,7 @@ def part_deep(ctx):
 
 def run(ctx, impl_only=False):
     part_numbers(ctx)
+    part_nonfinite(ctx)
     wit = part_typed(ctx)
     part_deep(ctx)
     wit.update(deep_wit())
